@@ -1334,3 +1334,47 @@ def local_condition(view, node, by_value=True):
     d = nearest_dominator(view, node)
     start = [d.id] if d is not None else [view.cfg.entry.id]
     return path_condition(view, node, start=start, by_value=by_value)
+
+
+def possibly_unbound(view):
+    """reads of a local that some path from the function entry reaches without any binding of it - counting a binding whose
+    right-hand side raised (the path leaves the assignment on an exception edge) as not done.
+    -> [(cfg node, name, path)]   (correlated-flag idioms can make a report infeasible: use on functions where that was reviewed)"""
+    fn = view.fn
+    cfg = view.cfg
+    params = {a.arg for a in fn.args.args + fn.args.kwonlyargs + fn.args.posonlyargs}
+    if fn.args.vararg:
+        params.add(fn.args.vararg.arg)
+    if fn.args.kwarg:
+        params.add(fn.args.kwarg.arg)
+    glob = {n_ for x in ast.walk(fn) if isinstance(x, (ast.Global, ast.Nonlocal)) for n_ in x.names}
+    locs = {x.id for x in ast.walk(fn) if isinstance(x, ast.Name) and isinstance(x.ctx, ast.Store)} - params - glob
+    locs |= {h.name for h in ast.walk(fn) if isinstance(h, ast.ExceptHandler) and h.name}
+    out = []
+    for name in sorted(locs):
+        defs = view._def_nodes(name)
+        uses = [n for n in cfg.nodes if any(isinstance(x, ast.Name) and x.id == name and isinstance(x.ctx, ast.Load)
+                                            for x in cfg.walk_node(n))]
+        if not uses:
+            continue
+        # forward reachability from the entry over edges that do not complete a definition
+        seen, todo = set(), [cfg.entry.id]
+        while todo:
+            a = todo.pop()
+            if a in seen:
+                continue
+            seen.add(a)
+            for b, lab in cfg.succ.get(a, []):
+                if a in defs and lab != "exc" and not (cfg.nodes[a].kind == "except"):
+                    continue            # the definition completed: paths through here are bound
+                if a in defs and cfg.nodes[a].kind == "except":
+                    continue            # `except X as name` binds on entry to the handler
+                todo.append(b)
+        for u in uses:
+            if u.id in seen and not (u.id in defs and isinstance(u.ast, ast.AugAssign) is False and False):
+                # a node that both defines and uses (x = f(x)) still reads first
+                if u.id in defs and not any(isinstance(x, ast.Name) and x.id == name and isinstance(x.ctx, ast.Load)
+                                            for x in cfg.walk_node(u)):
+                    continue
+                out.append((u, name))
+    return out
